@@ -538,13 +538,25 @@ pub fn run_c13(cx: &Cx) -> PropResult {
             }
             acc.bump("compiled_enum_families", 1);
         }
+        // the hand-written enums of the batch (explicit discriminants, identifiers shared between modules, recursion) as
+        // one-member families
+        for (i, d) in batch().specials.iter().enumerate() {
+            if i % cx.shards != shard || !matches!(d.body, DeclBody::Enum { .. }) || !compiled_ok(d) {
+                continue;
+            }
+            let strat = family_case_strategy(Some(1000 + i), vec![Ty::Adt(d.clone())]);
+            if drive(tag_seed(derive_seed(cx.seed, cx.prop, i as u64, 9), 500 + i as u64), &strat, per_family / 4, acc, &|c: &EnumCase| to_json(c), &mut |c, a, r| check_c13(c, a, r)) {
+                return;
+            }
+            acc.bump("compiled_special_enums", 1);
+        }
         let strat = dynamic_family_strategy();
         drive(tag_seed(derive_seed(cx.seed, cx.prop, shard as u64, 1), 1), &strat, n_dyn, acc, &|c: &EnumCase| to_json(c), &mut |c, a, r| check_c13(c, a, r));
     });
     let mut r = PropResult::new(
         acc,
         "exploration",
-        "enum families E < E' < E'' (variants appended so that they come last in index order; for sorted enums their names sort last; names chosen so that sorted order differs from declaration order; any mix of unit / tuple / struct / transient variants with per-variant evolution histories): 12 families compiled with the real derive macro and families generated at run time (E3). Cases = (writer member, reader member, value, optional constructor index spliced over the written one: 0-11, 127, 128, 255, 16384, 2^31, u32::MAX, position in which the reader meets the enum: top level, Vec element, between tuple siblings, field of a version-0 record, field the reader has since made optional, field only the writer had made optional, field in a chunk of its own, inside Some). Oracles: leading bytes are 00 and the model's var-u32 index (declaration position, or rank by name when sorted; transient constructors count); an extension reads old data as the same variant with the same payload; an older definition answers Err(InvalidConstructorId) to an appended constructor and to every index >= its number of constructors (never a panic); a transient constructor's index gives Err(DeserializingTransientConstructor) naming it, writing one gives Err(SerializingTransientConstructor); an index rewritten to a constructor with an identical record yields that other constructor. Non-trivial = reader has >= 2 non-unit variants and the case crosses definitions, or uses a spliced index.",
+        "enum families E < E' < E'' (variants appended so that they come last in index order; for sorted enums their names sort last; names chosen so that sorted order differs from declaration order; any mix of unit / tuple / struct / transient variants with per-variant evolution histories): 12 families compiled with the real derive macro, the batch's hand-written enums (among them unit-only enums with explicit discriminants that disagree with every index order) and families generated at run time (E3). Cases = (writer member, reader member, value, optional constructor index spliced over the written one: 0-11, 127, 128, 255, 16384, 2^31, u32::MAX, position in which the reader meets the enum: top level, Vec element, between tuple siblings, field of a version-0 record, field the reader has since made optional, field only the writer had made optional, field in a chunk of its own, inside Some). Oracles: leading bytes are 00 and the model's var-u32 index (declaration position, or rank by name when sorted; transient constructors count); an extension reads old data as the same variant with the same payload; an older definition answers Err(InvalidConstructorId) to an appended constructor and to every index >= its number of constructors (never a panic); a transient constructor's index gives Err(DeserializingTransientConstructor) naming it, writing one gives Err(SerializingTransientConstructor); an index rewritten to a constructor with an identical record yields that other constructor. Non-trivial = reader has >= 2 non-unit variants and the case crosses definitions, or uses a spliced index.",
     );
     r.extra = json!({"compiled_families": fams.len()});
     r
